@@ -1208,10 +1208,7 @@ theorem touch_iter (r : DRow) : r.touch.iter = r.iter := by
   induction r <;> simp_all [DRow.touch, DRow.iter, cell_get_touch]
 
 theorem touch_labelOf (r : DRow) : r.touch.labelOf = r.labelOf.map (fun p => (p.1.touch, p.2)) := by
-  cases r <;> simp [DRow.touch, DRow.labelOf]
-
-theorem touch_tipeOf (r : DRow) : r.touch.tipeOf = r.tipeOf := by
-  induction r <;> simp_all [DRow.touch, DRow.tipeOf]
+  induction r <;> simp_all [DRow.touch, DRow.labelOf]
 
 theorem touch_obsD (r : DRow) (a : Acc) : obsD r.touch a = obsD r a := by
   induction a generalizing r with
@@ -1229,7 +1226,9 @@ theorem touch_obsD (r : DRow) (a : Acc) : obsD r.touch a = obsD r a := by
     cases r.labelOf with
     | none => rfl
     | some p => simp [touch_getPos]
-  | tipe => simp only [obsD, DRow.tipe, touch_tipeOf]
+  | tipe =>
+    simp only [obsD, DRow.tipe, touch_labelOf]
+    cases r.labelOf <;> rfl
   | feats s ih =>
     simp only [obsD, DRow.feats, touch_labelOf]
     cases r.labelOf with
@@ -1301,7 +1300,7 @@ theorem feats_label_dense_cex' :
     ∃ r e, buildD cexStages (baseD cexBase) = .ok (some r) ∧
       (match eagerBaseD cexBase with | .ok e0 => eagerD cexStages e0 | .error er => .error er) = .ok (some e) ∧
       r.iter = .ok e.cells ∧
-      r.labelVal = .error .attrError ∧ e.labelVal = some (.int 3) := by
+      r.labelVal = .ok (.int 2) ∧ e.labelVal = some (.int 3) := by
   refine ⟨_, _, rfl, rfl, rfl, rfl, rfl⟩
 
 /-- a concrete pipeline used by the non-vacuity `example` in Props -/
@@ -2036,14 +2035,7 @@ theorem nodup_flatSet (d : Dict) (k : Key) (hs : List Int) (h : (d.map (·.1)).N
 
 theorem nodup_catEncodeDict (m : CatMode) (d : Dict) (h : (d.map (·.1)).Nodup) : ((catEncodeDict m d).map (·.1)).Nodup := by
   simp only [catEncodeDict]
-  have : ∀ (l o : Dict), (o.map (·.1)).Nodup → ((l.foldl (fun o p =>
-      match p.2 with
-      | .cat s lv =>
-        match m with
-        | .string => dset o p.1 (Val.str s)
-        | .onehotTuple => dset o p.1 (Val.tup (onehotOf s lv))
-        | .onehot => flatSet (ddel o p.1) p.1 (onehotOf s lv)
-      | _ => o) o).map (·.1)).Nodup := by
+  have : ∀ (l o : Dict), (o.map (·.1)).Nodup → ((l.foldl (catStep m) o).map (·.1)).Nodup := by
     intro l
     induction l with
     | nil => intro o ho; exact ho
@@ -2051,6 +2043,7 @@ theorem nodup_catEncodeDict (m : CatMode) (d : Dict) (h : (d.map (·.1)).Nodup) 
       intro o ho
       simp only [List.foldl_cons]
       apply ih
+      simp only [catStep]
       split
       · cases m
         · exact nodup_flatSet _ _ _ (nodup_ddel _ ho)
@@ -2790,7 +2783,7 @@ theorem feats_label_sparse_cex' :
     ∃ r e, buildS cexStagesS (baseS cexBaseS) = .ok (some r) ∧
       (match eagerBaseS cexBaseS with | .ok e0 => eagerS cexStagesS e0 | .error er => .error er) = .ok (some e) ∧
       r.items = .ok e.d ∧
-      r.labelVal = .error .attrError ∧ e.labelVal = some (.int 3) := by
+      r.labelVal = .ok (.int 2) ∧ e.labelVal = some (.int 3) := by
   refine ⟨_, _, rfl, rfl, rfl, rfl, rfl⟩
 
 /-! ### the load-once cell (sparse) -/
@@ -2826,10 +2819,7 @@ theorem touchS_items (r : SRow) : r.touch.items = r.items := by
   induction r <;> simp_all [SRow.touch, SRow.items, cell_get_touch]
 
 theorem touchS_labelOf (r : SRow) : r.touch.labelOf = r.labelOf.map (fun p => (p.1.touch, p.2)) := by
-  cases r <;> simp [SRow.touch, SRow.labelOf]
-
-theorem touchS_tipeOf (r : SRow) : r.touch.tipeOf = r.tipeOf := by
-  induction r <;> simp_all [SRow.touch, SRow.tipeOf]
+  induction r <;> simp_all [SRow.touch, SRow.labelOf]
 
 theorem touch_obsS (r : SRow) (a : Acc) : obsS r.touch a = obsS r a := by
   induction a generalizing r with
@@ -2850,7 +2840,9 @@ theorem touch_obsS (r : SRow) (a : Acc) : obsS r.touch a = obsS r a := by
       have := touchS_get (.label p.1 p.2.1 p.2.2) p.2.1
       simp only [SRow.touch] at this
       simp [this]
-  | tipe => simp only [obsS, SRow.tipe, touchS_tipeOf]
+  | tipe =>
+    simp only [obsS, SRow.tipe, touchS_labelOf]
+    cases r.labelOf <;> rfl
   | feats s ih =>
     simp only [obsS, SRow.feats, touchS_labelOf]
     cases r.labelOf with
@@ -3258,5 +3250,245 @@ theorem runS_after_clone (r : SRow) (a : Acc) (bs : List Acc) : runS (stepS r (.
   apply List.map_congr_left
   intro b _
   exact touch_obsS r b
+
+end Coba.C13
+
+namespace Coba.C13
+
+/-! ## the first dict of a sparse table -/
+
+theorem dget_dset_ne (d : Dict) (k k' : Key) (v : Val) (h : k' ≠ k) : dget (dset d k v) k' = dget d k' := by
+  induction d with
+  | nil => simp [dset, dget, Ne.symm h]
+  | cons p t ih =>
+    obtain ⟨a, b⟩ := p
+    simp only [dset]
+    split
+    · rename_i hak
+      have : a ≠ k' := by intro e; exact h (e.symm.trans hak)
+      simp [dget, this]
+    · simp only [dget, ih]
+
+theorem dget_ddel_ne (d : Dict) (k k' : Key) (h : k' ≠ k) : dget (ddel d k) k' = dget d k' := by
+  induction d with
+  | nil => rfl
+  | cons p t ih =>
+    obtain ⟨a, b⟩ := p
+    have ih' : dget (t.filter (fun p => decide (p.1 ≠ k))) k' = dget t k' := ih
+    by_cases hak : a = k
+    · have hne : a ≠ k' := by intro e; exact h (e.symm.trans hak)
+      have : ddel ((a, b) :: t) k = t.filter (fun p => decide (p.1 ≠ k)) := by simp [ddel, List.filter_cons, hak]
+      rw [this, ih']
+      simp [dget, hne]
+    · have : ddel ((a, b) :: t) k = (a, b) :: t.filter (fun p => decide (p.1 ≠ k)) := by simp [ddel, List.filter_cons, hak]
+      rw [this]
+      simp only [dget, ih']
+
+theorem dget_flatSet_ne (d : Dict) (k k' : Key) (hs : List Int) (h : k' ∉ genNames k hs) :
+    dget (flatSet d k hs) k' = dget d k' := by
+  simp only [flatSet, genNames] at *
+  generalize (hs.zipIdx.drop 1) = l at h
+  induction l generalizing d with
+  | nil => rfl
+  | cons p t ih =>
+    simp only [List.map_cons, List.mem_cons, not_or] at h
+    simp only [List.foldl_cons]
+    rw [ih _ h.2, dget_dset_ne _ _ _ _ h.1]
+
+theorem catKeysD_cons_cat (k : Key) (s : String) (lv : List String) (t : Dict) :
+    catKeysD ((k, Val.cat s lv) :: t) = k :: catKeysD t := by
+  simp [catKeysD, isCat]
+
+theorem catKeysD_cons_not (p : Key × Val) (t : Dict) (h : isCat p.2 = false) : catKeysD (p :: t) = catKeysD t := by
+  simp [catKeysD, h]
+
+theorem catStep_not_cat (m : CatMode) (o : Dict) (p : Key × Val) (h : isCat p.2 = false) : catStep m o p = o := by
+  obtain ⟨k, v⟩ := p
+  cases v <;> simp_all [catStep, isCat]
+
+theorem encodeAtKey_cat (m : CatMode) (o : Dict) (k : Key) (s : String) (lv : List String)
+    (h : dget o k = some (Val.cat s lv)) : encodeAtKey m o k = .ok (catStep m o (k, Val.cat s lv)) := by
+  cases m <;> simp [encodeAtKey, h, catStep, Enc.apply]
+
+/-- taking the categorical keys of the dict itself, `catset` key by key does what the per-entry description says -/
+theorem catEncodeAtD_fold (m : CatMode) (l o : Dict)
+    (hget : ∀ p ∈ l, dget o p.1 = some p.2) (hn : (l.map (·.1)).Nodup)
+    (hc : ∀ p ∈ l, ∀ s lv, p.2 = Val.cat s lv → ∀ q ∈ l, q.1 ∉ genNames p.1 (onehotOf s lv)) :
+    catEncodeAtD m (catKeysD l) o = .ok (l.foldl (catStep m) o) := by
+  induction l generalizing o with
+  | nil => rfl
+  | cons p t ih =>
+    obtain ⟨k, v⟩ := p
+    simp only [List.map_cons, List.nodup_cons] at hn
+    have hc' : ∀ p ∈ t, ∀ s lv, p.2 = Val.cat s lv → ∀ q ∈ t, q.1 ∉ genNames p.1 (onehotOf s lv) :=
+      fun p hp s lv e q hq => hc p (List.mem_cons_of_mem _ hp) s lv e q (List.mem_cons_of_mem _ hq)
+    by_cases hcat : isCat v = true
+    · cases v with
+      | cat s lv =>
+        rw [catKeysD_cons_cat]
+        simp only [catEncodeAtD, List.foldl_cons]
+        rw [encodeAtKey_cat m o k s lv (hget (k, _) (by simp))]
+        apply ih _ _ hn.2 hc'
+        intro q hq
+        have hne : q.1 ≠ k := by
+          intro e
+          exact hn.1 (e ▸ List.mem_map_of_mem (f := (·.1)) hq)
+        have hg : q.1 ∉ genNames k (onehotOf s lv) := hc (k, _) (by simp) s lv rfl q (List.mem_cons_of_mem _ hq)
+        have hq0 := hget q (List.mem_cons_of_mem _ hq)
+        cases m
+        · simp only [catStep]; rw [dget_flatSet_ne _ _ _ _ hg, dget_ddel_ne _ _ _ hne]; exact hq0
+        · simp only [catStep]; rw [dget_dset_ne _ _ _ _ hne]; exact hq0
+        · simp only [catStep]; rw [dget_dset_ne _ _ _ _ hne]; exact hq0
+      | _ => simp [isCat] at hcat
+    · have hcat' : isCat v = false := by simpa using hcat
+      rw [catKeysD_cons_not (k, v) t hcat']
+      simp only [List.foldl_cons, catStep_not_cat m o (k, v) hcat']
+      exact ih o (fun q hq => hget q (List.mem_cons_of_mem _ hq)) hn.2 hc'
+
+theorem catEncodeAtD_self (m : CatMode) (d : Dict) (hn : (d.map (·.1)).Nodup) (hc : noClash d = true) :
+    catEncodeAtD m (catKeysD d) d = .ok (catEncodeDict m d) := by
+  apply catEncodeAtD_fold m d d (fun p hp => dget_of_mem_nodup hn hp) hn
+  intro p hp s lv e q hq hmem
+  simp only [noClash, List.all_eq_true] at hc
+  have h1 := hc p hp
+  rw [e] at h1
+  simp only [List.all_eq_true] at h1
+  have h2 := h1 _ hmem
+  simp only [Bool.not_eq_true', List.contains_eq_mem, decide_eq_false_iff_not] at h2
+  exact h2 (List.mem_map_of_mem (f := (·.1)) hq)
+
+theorem catKeysD_isEmpty (d : Dict) : (catKeysD d).isEmpty = !hasCatD d := by
+  induction d with
+  | nil => rfl
+  | cons p t ih =>
+    obtain ⟨k, v⟩ := p
+    cases v <;> simp_all [catKeysD, hasCatD, isCat]
+
+/-- when the dict row looks like the first dict, deriving the filter's arguments from the first row or from the row itself is the same -/
+theorem applyS1_eq (st : Stage) (f r : SRow) (h : sameShapeS f r = true) : applyS1 st f r = applyS st r := by
+  simp only [sameShapeS, Bool.and_eq_true] at h
+  obtain ⟨hinv, hit⟩ := h
+  have hinv' : f.invOf = r.invOf := by simpa using hinv
+  cases st with
+  | headNames ns => rfl
+  | headMap m => rfl
+  | encodeSeq es => rfl
+  | encodeMap m => rfl
+  | drop cols pred => rfl
+  | label k t => simp only [applyS1, applyS, hinv']
+  | enccat t =>
+    cases t with
+    | none => rfl
+    | some m =>
+      simp only [applyS1, applyS]
+      cases hf : f.items with
+      | error e => simp [hf] at hit
+      | ok fits =>
+        cases hr : r.items with
+        | error e => simp [hf, hr] at hit
+        | ok its =>
+          simp only [hf, hr, Bool.and_eq_true, decide_eq_true_eq] at hit ⊢
+          obtain ⟨⟨hk, hn⟩, hc⟩ := hit
+          have hk' : catKeysD (SRow.toDict fits) = catKeysD (SRow.toDict its) := by simpa using hk
+          rw [hk', catKeysD_isEmpty, catEncodeAtD_self m _ hn hc]
+          cases hasCatD (SRow.toDict its) <;> simp
+
+theorem stageTableS1_eq (st : Stage) (rows : List SRow)
+    (h : (match rows with | [] => true | f :: _ => rows.all (sameShapeS f)) = true) :
+    stageTableS1 st rows = stageTableS0 st rows := by
+  cases rows with
+  | nil => rfl
+  | cons f t =>
+    simp only [stageTableS1, stageTableS0]
+    congr 1
+    apply mapMRes_congr
+    intro r hr
+    exact applyS1_eq st f r (List.all_eq_true.1 h r hr)
+
+/-- on a sparse table whose rows look alike at every stage, looking at the first dict (the code) or at each row (the theorems) is the same -/
+theorem runStagesS1_eq (stages : List Stage) (rows : List SRow) (h : uniformRunS stages rows = true) :
+    runStagesS1 stages rows = runStagesS0 stages rows := by
+  induction stages generalizing rows with
+  | nil => rfl
+  | cons st rest ih =>
+    simp only [uniformRunS, Bool.and_eq_true] at h
+    have h1 := stageTableS1_eq st rows h.1
+    simp only [runStagesS1, runStagesS0, ← h1]
+    cases hs : stageTableS1 st rows with
+    | error e => rfl
+    | ok rows' =>
+      have := h.2
+      simp only [hs] at this
+      exact ih rows' this
+
+theorem buildS_compose (st : Stage) (rest : List Stage) (rows : List SRow) (os1 os2 : List (Option SRow))
+    (h1 : mapMRes (applyS st) rows = .ok os1) (h2 : mapMRes (buildS rest) (os1.filterMap id) = .ok os2) :
+    ∃ os, mapMRes (buildS (st :: rest)) rows = .ok os ∧ os.filterMap id = os2.filterMap id := by
+  induction rows generalizing os1 os2 with
+  | nil =>
+    simp [mapMRes] at h1; subst h1
+    simp [mapMRes] at h2; subst h2
+    exact ⟨[], rfl, rfl⟩
+  | cons r t iht =>
+    simp only [mapMRes] at h1
+    cases ha : applyS st r with
+    | error e => simp [ha] at h1
+    | ok o =>
+      simp only [ha] at h1
+      cases ht : mapMRes (applyS st) t with
+      | error e => simp [ht] at h1
+      | ok ot =>
+        simp [ht] at h1; subst h1
+        cases o with
+        | none =>
+          simp only [List.filterMap_cons, id] at h2
+          obtain ⟨os, hos, ho⟩ := iht ot os2 ht h2
+          exact ⟨none :: os, mapMRes_cons_ok (by simp [buildS, ha]) hos, by simpa using ho⟩
+        | some r1 =>
+          simp only [List.filterMap_cons, id, mapMRes] at h2
+          cases hb : buildS rest r1 with
+          | error e => simp [hb] at h2
+          | ok o1 =>
+            simp only [hb] at h2
+            cases ht2 : mapMRes (buildS rest) (ot.filterMap id) with
+            | error e => simp [ht2] at h2
+            | ok o2 =>
+              simp [ht2] at h2; subst h2
+              obtain ⟨os, hos, ho⟩ := iht ot o2 ht ht2
+              refine ⟨o1 :: os, mapMRes_cons_ok (by simp [buildS, ha, hb]) hos, ?_⟩
+              cases o1 <;> simp [ho]
+
+/-- a sparse table processed stage after stage is the table of the per-row pipelines (`buildS`) -/
+theorem runStagesS0_rows (stages : List Stage) (rows out : List SRow) (h : runStagesS0 stages rows = .ok out) :
+    ∃ os, mapMRes (buildS stages) rows = .ok os ∧ out = os.filterMap id := by
+  induction stages generalizing rows out with
+  | nil =>
+    simp [runStagesS0] at h; subst h
+    refine ⟨rows.map some, ?_, by simp [List.filterMap_map]⟩
+    apply mapMRes_of_map
+    simp [buildS]
+  | cons st rest ih =>
+    simp only [runStagesS0] at h
+    cases hs : stageTableS0 st rows with
+    | error e => simp [hs] at h
+    | ok rows1 =>
+      simp only [hs] at h
+      obtain ⟨os1, hos1, hr1⟩ := collect_ok hs
+      obtain ⟨os2, hos2, hout⟩ := ih rows1 out h
+      subst hr1
+      obtain ⟨os, hos, ho⟩ := buildS_compose st rest rows os1 os2 hos1 hos2
+      exact ⟨os, hos, by rw [hout, ho]⟩
+
+theorem first_dict_cex' :
+    (tableS1 [.enccat (some .string)] [.plain [(.name "a", .cat "p" ["p", "q"])], .plain [(.name "a", .str "x"), (.name "b", .cat "q" ["p", "q"])]]
+        = .ok [.plain [(.name "a", .str "p")], .plain [(.name "a", .str "x"), (.name "b", .cat "q" ["p", "q"])]] ∧
+      buildS [.enccat (some .string)] (baseS (.plain [(.name "a", .str "x"), (.name "b", .cat "q" ["p", "q"])]))
+        = .ok (some (.plain [(.name "a", .str "x"), (.name "b", .str "q")]))) ∧
+    (tableS1 [.enccat (some .string)] [.plain [(.name "a", .cat "p" ["p", "q"])], .plain [(.name "b", .int 1)]] = .error .keyError ∧
+      buildS [.enccat (some .string)] (baseS (.plain [(.name "b", .int 1)])) = .ok (some (.plain [(.name "b", .int 1)]))) ∧
+    (∃ r1 r2, applyS1 (.label (.pos 1) none) (.plain []) (.head (.plain [(.pos 1, .int 5)]) [(.name "b", .pos 1)] [(.pos 1, .name "b")]) = .ok (some r1) ∧
+      applyS (.label (.pos 1) none) (.head (.plain [(.pos 1, .int 5)]) [(.name "b", .pos 1)] [(.pos 1, .name "b")]) = .ok (some r2) ∧
+      r1.labelOf.map (·.2.1) = some (.pos 1) ∧ r2.labelOf.map (·.2.1) = some (.name "b")) :=
+  ⟨⟨rfl, rfl⟩, ⟨rfl, rfl⟩, ⟨_, _, rfl, rfl, rfl, rfl⟩⟩
 
 end Coba.C13
